@@ -179,7 +179,19 @@ def do_op(chart, twin, name: str, rng) -> str:
                 s.end_tick, s.tick_is_during_event(rng.randint(0, 1000)), s.tick_is_after_event(rng.randint(0, 1000))
         return "derived"
     if name == "copy":
+        import pickle
+
         copy.copy(chart)
+        for fn in (copy.deepcopy, lambda x: pickle.loads(pickle.dumps(x))):
+            try:
+                fn(chart)
+                for i, d in present[:2]:
+                    tr = chart.instrument_tracks[i][d]
+                    fn(tr)
+                    for n in tr.note_events[:3]:
+                        fn(n)
+            except Exception:  # noqa  (whether a chart can be deep-copied / pickled is not stated; that trying leaves it alone is)
+                pass
         for i, d in present[:2]:
             copy.copy(chart.instrument_tracks[i][d])
         return "copy"
